@@ -34,10 +34,14 @@ func (x *Exec) guardCheckField(st *State, field string, ref Term, write bool, di
 			}
 		}
 		name := "immutable:" + field
+		itags := []string{"C03", "C08", "C09"}
+		if strings.HasPrefix(field, "models.Entity.") {
+			itags = append(itags, "C05") // the owner (and identity) of an entity is fixed when it is created
+		}
 		if allowed {
-			st.obls = append(st.obls, Obl{Name: name, Tags: []string{"C03", "C08", "C09"}, Goal: TTrue, PCLen: len(st.pc), Static: "ok", Desc: field + " written by a declared writer"})
+			st.obls = append(st.obls, Obl{Name: name, Tags: itags, Goal: TTrue, PCLen: len(st.pc), Static: "ok", Desc: field + " written by a declared writer"})
 		} else {
-			st.obligeStaticFail(name, []string{"C03", "C08", "C09"}, "write of "+field+" outside its declared writers "+strings.Join(ws, ", "))
+			st.obligeStaticFail(name, itags, "write of "+field+" outside its declared writers "+strings.Join(ws, ", "))
 		}
 	}
 	if x.spec.OnceBody {
